@@ -117,6 +117,27 @@ EXTRA = {
          'Also decides: both range components are max of absolute differences; x/y grid offsets come from GRID[0]/GRID[1] and go to NX/NY; level texts of magnitudes below 1e5 (incl. exact powers of ten) parse back within half a unit of the last place; '
          'index and data records have 50 + nx*ny bytes.'),
 }
+
+# clauses added after the second held-out wave
+EXTRA2 = {
+ 'C01': 'Also: `x = x or default` on optional numeric parameters; squeeze without axis= in removeSingleton.',
+ 'C02': 'Also: a dimension length computed from slice.indices() is checked on 15 sample slices (reversed, strided, empty); np.resize/append/insert/delete/pad/broadcast_to are mask droppers (calibrated).',
+ 'C04': 'Also: a sequence argument that is materialised with list() is iterated nowhere else (one-shot iterables); global attributes come from the first file.',
+ 'C05': 'Also: no dimension object of an input is stored in the dimension table of a possibly new file.',
+ 'C06': 'Also: finite case analysis of the condition that applies a positional mask to a variable (10 cases); a structure-only copy keeps the coordinate keys.',
+ 'C07': 'Also: every parameter of the converter functions is read (options forwarded); the 0-d branch stores the array, never an extracted scalar.',
+ 'C08': 'Also: century pivot and offsets decode 00-69 as 20xx and 70-99 as 19xx per element; boundary keys are split at the first underscore only; writers never write storage of their input (provenance); dtype-preserving astype is not a conversion; cloud/rain record order is a literal list.',
+ 'C09': 'Also: an astype that keeps the input item size gives a symbolic item size, so marker = payload fails as a polynomial identity.',
+ 'C10': 'Also: handler guards are membership tests (not truthiness / selector kind / elif of another dimension); applyAlongDimensions and ncf2ioapi store NLAYS + 1 edges (size algebra).',
+ 'C11': 'Also: each georeferencing handler runs whenever its dimension is selected (no truthiness test of the selector, no elif chaining of ROW after COL).',
+ 'C12': 'Also: datetime64 unit no coarser than the resolution found; epoch seconds never cast to 4-byte integers; updatetflag deletes the old TFLAG before it asks getTimes().',
+ 'C13': 'Also: one end-of-day constant per record reader (run-time choices undecided); wind memmap step size = header + 2 x layers x record + dummy (size algebra).',
+ 'C15': 'Also: registerreader refuses a taken name whatever the class (case analysis); the extension is derived with os.path functions only; pncmfopen passes the caller keywords unchanged.',
+ 'C16': 'Also: time2t unit table; both range limits from the edge array; no sorting/merging of coordinate or edge values.',
+ 'C18': 'Also: [tau0, tau1] paired by transposition; attribute <- like-named header field through nested subscripts.',
+ 'C19': 'Also: column-name line and data columns built from one ordered key list; lower/upper detection-limit blocks use only their own names.',
+ 'C20': 'Also: both sweeps of pack2d use the same integer conversion; VAR1 and EXP handed to unpack are indexed alike; no function reads and fills a mutable default argument.',
+}
 NA = {
  'C03': 'equality of computed arrays with numpy reductions for every shape/reducer/mask: no code-shape clause is a necessary condition (DESIGN 5)',
  'C14': 'quantifies over every byte offset of a cut; outcome decided at run time by file-size arithmetic and numpy.memmap validation (DESIGN 5)',
@@ -133,6 +154,8 @@ def main():
         tech, note, ref = CLAIMED[pid]
         if pid in EXTRA:
             tech, note = tech + '; ' + EXTRA[pid][0], note + ' ' + EXTRA[pid][1]
+        if pid in EXTRA2:
+            note = note + ' ' + EXTRA2[pid]
         mod = importlib.import_module('pncstatic.rules.%s' % pid.lower())
         checks.append(dict(
             property_id=pid,
